@@ -5,6 +5,7 @@
 #include "vp.h"
 #include "tape.h"
 #include "fix_mem.h"
+#include "faultmalloc.h"
 #include <stdlib.h>
 #include <stdio.h>
 #include <sys/uio.h>
@@ -13,10 +14,11 @@
 #define MAXSZ 700
 #define MAXOPS 50
 
-enum { CL_MULTISEG, CL_CROSS, CL_ERRPATH, CL_CACHEOP, CL_OUTSIDE_OK, CL_NEGOFF, CL_PREPEND, CL_FIND, CL_POOL, CL_ALIGN };
+enum { CL_MULTISEG, CL_CROSS, CL_ERRPATH, CL_CACHEOP, CL_OUTSIDE_OK, CL_NEGOFF, CL_PREPEND, CL_FIND, CL_POOL, CL_ALIGN, CL_FAULT, CL_FAULT_MULTI };
 static const char *const class_names[] = {
     "multi_segment_handle", "accessor_crossed_segment", "error_path_taken", "access_after_cache_moving_op",
-    "out_of_domain_call_succeeded", "negative_offset", "prepend_ok", "find_multi_octet", "pool_depth_gt0", "align_gt0", NULL };
+    "out_of_domain_call_succeeded", "negative_offset", "prepend_ok", "find_multi_octet", "pool_depth_gt0", "align_gt0",
+    "allocation_refused_inside_operation", "allocation_refused_on_multi_segment_handle", NULL };
 
 struct mh {
     struct ubuf *u;
@@ -38,6 +40,7 @@ struct ctx {
     int ret;
     uint64_t hash;
     bool multiseg, cross, errpath, cacheop, outside_ok, negoff, prepend_ok, findm;
+    bool faultmode, faulthit, faultmulti;
 };
 
 #define R(...) do { if (c->render) vp_render(c->rep, __VA_ARGS__); } while (0)
@@ -53,6 +56,11 @@ struct ctx {
 #define EXEC_ID "C03"
 #define EXEC_VARIANT "blockstr"
 #endif
+
+/* allocation fault injection (engine/faultmalloc.h, force-included): in a share of the cases the n-th allocation inside an
+ * operation is refused. The operation may then report an error -- and must leave every handle as it was (the property's
+ * "an operation that reports an error leaves size and content unchanged") -- or succeed some other way, exactly. */
+#define FAULTED() (vp_fault_refused() > 0)
 
 static uint8_t pat_byte(struct ctx *c) { c->pat = c->pat * 1103515245u + 12345u; uint8_t b = c->pat >> 16; return (b & 0x30) ? b : (b & 3); /* many 0..3 for find */ }
 
@@ -155,6 +163,11 @@ static int pick_live(struct ctx *c)
     if (!n) return -1;
     return live[tp_pick(&c->t, n)];
 }
+static int pick_any_live(struct ctx *c)
+{
+    for (int i = 0; i < MAXH; i++) if (c->h[i].u) return i;
+    return -1;
+}
 static int pick_free(struct ctx *c)
 {
     for (int i = 0; i < MAXH; i++) if (!c->h[i].u) return i;
@@ -179,7 +192,7 @@ static int do_alloc(struct ctx *c, int slot, int size, bool opaque)
             ubuf_block_unmap(h->u, 0);
         }
     }
-    if (!h->u) { FAIL("C03/alloc", "ubuf_block_alloc(%d) failed", size); return -1; }
+    if (!h->u) { if (FAULTED()) { c->errpath = true; return -1; } FAIL("C03/alloc", "ubuf_block_alloc(%d) failed", size); return -1; }
     memcpy(h->m, tmp, size); memset(h->wild, 0, sizeof(h->wild)); h->n = size; h->prep_avail = c->mgr_prepend; h->nb = 0;
     if (size) {
         int s = -1; const uint8_t *p;
@@ -194,6 +207,7 @@ static int do_alloc(struct ctx *c, int slot, int size, bool opaque)
 static void probe(struct ctx *c, int hi)
 {
     struct mh *h = &c->h[hi];
+    vp_fault_disarm();          /* the accessors run without faults */
     if (!h->u || c->ret) return;
     uint8_t kind = tp_u8(&c->t) % 8;
     if (kind == 0) return;
@@ -346,14 +360,20 @@ static int run(const uint8_t *tp_, size_t len, struct vp_report *rep, unsigned f
     int align_off = align ? (int)(tp_u8(&c->t) % 5) - 2 : 0;
     c->mgr_prepend = prep;
     if (fix_mem_init_full(&c->fm, depth, prep, app, align, align_off) != 0) return vp_internal(rep, "fixture init");
-    R("C03 config: pool_depth=%d prepend=%d append=%d align=%d align_offset=%d\n", depth, prep, app, align, align_off);
+    c->faultmode = cfg >= 216;      /* (216..255 alias configurations 0..39) */
+    R("C03 config: pool_depth=%d prepend=%d append=%d align=%d align_offset=%d%s\n", depth, prep, app, align, align_off, c->faultmode ? " [allocation faults]" : "");
     c->hash = vp_hash_mix(c->hash, cfg);
 
     int nops = 0;
     while (!tp_done(&c->t) && nops < MAXOPS && !c->ret) {
         nops++;
-        uint8_t op = tp_u8(&c->t) % 16;
+        uint8_t opb = tp_u8(&c->t), op = opb % 16;
         int hi = -1;
+        /* fault mode: the operations whose octet is >= 128 run with the 1st..4th allocation from now on refused */
+        unsigned nth = (c->faultmode && opb >= 128) ? 1 + (opb >> 4) % 4 : 0;
+        bool multi_before = false;
+        if (nth) for (int i = 0; i < MAXH; i++) if (c->h[i].u && c->h[i].nb > 0) multi_before = true;
+        vp_fault_arm(nth);
         char what[96] = "";
         bool cachemove = false;
         c->hash = vp_hash_mix(c->hash, op);
@@ -374,7 +394,7 @@ static int run(const uint8_t *tp_, size_t len, struct vp_report *rep, unsigned f
             snprintf(what, sizeof what, "h%d=dup(h%d)", slot, s);
             R("  %s\n", what);
             c->h[slot].u = ubuf_dup(c->h[s].u);
-            if (!c->h[slot].u) { FAIL("C03/domain/dup", "ubuf_dup fails"); break; }
+            if (!c->h[slot].u) { if (FAULTED()) { c->errpath = true; hi = s; break; } FAIL("C03/domain/dup", "ubuf_dup fails"); break; }
             memcpy(c->h[slot].m, c->h[s].m, c->h[s].n); memcpy(c->h[slot].wild, c->h[s].wild, c->h[s].n);
             c->h[slot].n = c->h[s].n; c->h[slot].prep_avail = 0; c->h[slot].nb = 0;
             hi = slot; break; }
@@ -392,7 +412,7 @@ static int run(const uint8_t *tp_, size_t len, struct vp_report *rep, unsigned f
             R("  %s -> %s%s\n", what, nu ? "ok" : "NULL", indom ? "" : " [outside domain]");
             if (off < 0 && indom) c->negoff = true;
             if (indom) {
-                if (!nu) { FAIL("C03/domain/splice", "%s inside a block of %zu octets fails", what, h->n); break; }
+                if (!nu) { if (FAULTED()) { c->errpath = true; hi = s; break; } FAIL("C03/domain/splice", "%s inside a block of %zu octets fails", what, h->n); break; }
                 int64_t want = sz == -1 ? (int64_t)h->n - noff : sz;
                 c->h[slot].u = nu;
                 memcpy(c->h[slot].m, h->m + noff, want); memcpy(c->h[slot].wild, h->wild + noff, want); c->h[slot].n = want;
@@ -414,7 +434,7 @@ static int run(const uint8_t *tp_, size_t len, struct vp_report *rep, unsigned f
             if (off < 0 && indom) c->negoff = true;
             cachemove = true;
             if (indom) {
-                if (!nu) { FAIL("C03/domain/split", "%s inside a block of %zu octets fails", what, h->n); break; }
+                if (!nu) { if (FAULTED()) { c->errpath = true; hi = s; break; } FAIL("C03/domain/split", "%s inside a block of %zu octets fails", what, h->n); break; }
                 c->h[slot].u = nu;
                 memcpy(c->h[slot].m, h->m + noff, h->n - noff); memcpy(c->h[slot].wild, h->wild + noff, h->n - noff);
                 c->h[slot].n = h->n - noff; h->n = noff;
@@ -429,7 +449,7 @@ static int run(const uint8_t *tp_, size_t len, struct vp_report *rep, unsigned f
             snprintf(what, sizeof what, "append(h%d,h%d)", a, b);
             int err = ubuf_block_append(c->h[a].u, c->h[b].u);
             R("  %s -> %d\n", what, err);
-            if (!ubase_check(err)) { FAIL("C03/domain/append", "%s fails", what); break; }
+            if (!ubase_check(err)) { if (FAULTED()) { c->errpath = true; hi = a; break; } FAIL("C03/domain/append", "%s fails", what); break; }
             memcpy(c->h[a].m + c->h[a].n, c->h[b].m, c->h[b].n); memcpy(c->h[a].wild + c->h[a].n, c->h[b].wild, c->h[b].n);
             c->h[a].n += c->h[b].n; c->h[b].u = NULL; c->h[b].n = 0;
             hi = a; break; }
@@ -456,7 +476,7 @@ static int run(const uint8_t *tp_, size_t len, struct vp_report *rep, unsigned f
                 if (!indom) resync(c, a, what);
             } else {
                 c->errpath = true;
-                if (indom) FAIL("C03/domain/insert", "%s inside a block of %zu octets fails", what, h->n);
+                if (indom && !FAULTED()) FAIL("C03/domain/insert", "%s inside a block of %zu octets fails", what, h->n);
             }
             hi = a; break; }
         case 7: { /* delete */
@@ -479,7 +499,7 @@ static int run(const uint8_t *tp_, size_t len, struct vp_report *rep, unsigned f
                 } else resync(c, a, what);
             } else {
                 c->errpath = true;
-                if (indom) FAIL("C03/domain/delete", "%s inside a block of %zu octets fails", what, h->n);
+                if (indom && !FAULTED()) FAIL("C03/domain/delete", "%s inside a block of %zu octets fails", what, h->n);
             }
             hi = a; break; }
         case 8: { /* truncate */
@@ -493,7 +513,7 @@ static int run(const uint8_t *tp_, size_t len, struct vp_report *rep, unsigned f
             R("  %s -> %d%s\n", what, err, indom ? "" : " [outside domain]");
             cachemove = true;
             if (ubase_check(err)) { if (indom) h->n = off; else resync(c, a, what); }
-            else { c->errpath = true; if (indom) FAIL("C03/domain/truncate", "%s inside a block of %zu octets fails", what, h->n); }
+            else { c->errpath = true; if (indom && !FAULTED()) FAIL("C03/domain/truncate", "%s inside a block of %zu octets fails", what, h->n); }
             hi = a; break; }
         case 9: { /* resize */
             int a = pick_live(c); if (a < 0) break;
@@ -513,7 +533,7 @@ static int run(const uint8_t *tp_, size_t len, struct vp_report *rep, unsigned f
                     int64_t ns = sz == -1 ? (int64_t)h->n - noff : sz;
                     memmove(h->m, h->m + noff, ns); memmove(h->wild, h->wild + noff, ns); h->n = ns;
                 } else resync(c, a, what);
-            } else { c->errpath = true; if (indom && !((size_t)noff == h->n)) FAIL("C03/domain/resize", "%s inside a block of %zu octets fails", what, h->n); }
+            } else { c->errpath = true; if (indom && !((size_t)noff == h->n) && !FAULTED()) FAIL("C03/domain/resize", "%s inside a block of %zu octets fails", what, h->n); }
             hi = a; break; }
         case 10: { /* prepend */
             int a = pick_live(c); if (a < 0) break;
@@ -534,7 +554,7 @@ static int run(const uint8_t *tp_, size_t len, struct vp_report *rep, unsigned f
                 if (k) c->prepend_ok = true;
             } else {
                 c->errpath = true;
-                if (k <= h->prep_avail) FAIL("C03/domain/prepend", "%s fails although the manager reserved %d octets of prepend", what, h->prep_avail);
+                if (k <= h->prep_avail && !FAULTED()) FAIL("C03/domain/prepend", "%s fails although the manager reserved %d octets of prepend", what, h->prep_avail);
             }
             hi = a; break; }
         case 11: case 12: { /* copy / merge */
@@ -556,7 +576,7 @@ static int run(const uint8_t *tp_, size_t len, struct vp_report *rep, unsigned f
             if (op == 11) nu = ubuf_block_copy(c->fm.block_mgr, h->u, skip, ns);
             else { err = ubuf_block_merge(c->fm.block_mgr, &h->u, skip, ns); nu = ubase_check(err) ? h->u : NULL; }
             R("  %s -> %s%s\n", what, nu ? "ok" : "failed", indom ? "" : " [outside domain]");
-            if (!nu) { c->errpath = true; if (indom) FAIL("C03/domain/copy", "%s on a block of %zu octets fails", what, h->n); hi = a; break; }
+            if (!nu) { c->errpath = true; if (indom && !FAULTED()) FAIL("C03/domain/copy", "%s on a block of %zu octets fails", what, h->n); hi = a; break; }
             if (rs < 0 || rs > MAXSZ) { if (op == 11) c->h[slot].u = nu; resync(c, slot, what); hi = slot; break; }
             /* model: result[i] = src[i + skip] where defined, else wildcard */
             static uint8_t nm[MAXSZ + 64], nw[MAXSZ + 64];
@@ -597,6 +617,13 @@ static int run(const uint8_t *tp_, size_t len, struct vp_report *rep, unsigned f
             R("  access(h%d)\n", a);
             probe(c, a); break; }
         }
+        vp_fault_disarm();
+        if (nth && FAULTED()) {
+            c->faulthit = true; if (multi_before) c->faultmulti = true;
+            R("    (allocation %u inside the operation was refused)\n", nth);
+            c->hash = vp_hash_mix(c->hash, 0xfa00 + nth);
+            if (hi < 0) hi = pick_any_live(c);
+        }
         if (hi >= 0 && !c->ret) {
             if (cachemove && c->h[hi].u) c->cacheop = true;
             probe(c, hi);
@@ -618,6 +645,8 @@ static int run(const uint8_t *tp_, size_t len, struct vp_report *rep, unsigned f
     if (c->findm) rep->classes |= 1u << CL_FIND;
     if (depth) rep->classes |= 1u << CL_POOL;
     if (align) rep->classes |= 1u << CL_ALIGN;
+    if (c->faulthit) rep->classes |= 1u << CL_FAULT;
+    if (c->faultmulti) rep->classes |= 1u << CL_FAULT_MULTI;
     rep->nontrivial = (c->multiseg && c->cross) || c->errpath || c->cacheop;
     return c->ret;
 }
